@@ -7,21 +7,64 @@ V = os.path.dirname(os.path.dirname(os.path.abspath(__file__)))
 props = [json.loads(l) for l in open(os.path.join(V, "properties.jsonl"))]
 
 E1 = "pyagent (Hypothesis + real release-built extension + scripted UDP agent)"
+E2 = "rsprop"
 CHECKS = {
     "C01": dict(level="exploration", tech="property-based structured mutation (Hypothesis) through the real sessions + coverage-guided fuzzing (libFuzzer/ASan) of the receive path and decoders; oracle: outcome class",
-                text="Generated-input search: thousands of mutated replies per run through the real extension (all versions/security levels/operations/drivers) and libFuzzer+ASan campaigns on the receive path; finds crashes, cannot prove their absence.",
-                note="Trusts the reference encoder only to produce seed replies; the oracle is just the outcome class. Process abort is detected by running the check body in a child process."),
-    "C02": dict(level="exploration", tech="property-based testing (Hypothesis) against an independent reference BER encoder; differential oracle on decoded Python values",
-                text="Model responses covering every value type, boundary encodings and length forms are encoded by an independent encoder and read back through the real API; equality with the documented type table. Exploration, not proof.",
-                note="Reference encoder refber.py and reference crypto refusm.py (self-tested on FIPS/RFC vectors) are trusted."),
+                text="Generated-input search: thousands of mutated replies per run through the real extension (all versions/security levels/operations/drivers) and libFuzzer+ASan campaigns on the decoders and the decrypt path; finds crashes, cannot prove their absence.",
+                note="Trusts the reference encoder only to produce seed replies; the oracle is just the outcome class (documented exception vs PanicException/abort/ASan report)."),
+    "C02": dict(level="exploration", tech="property-based testing (Hypothesis + proptest) against an independent reference BER encoder; differential oracle on decoded Python values",
+                text="Model responses covering every value type, boundary encodings and length forms are encoded by an independent encoder and read back through the real API (and through SnmpValue::from_ber at Rust speed); equality with the documented type table. Exploration, not proof.",
+                note="Reference encoders refber.py / refenc.rs and reference crypto refusm.py (self-tested on FIPS/RFC vectors) are trusted."),
+    "C03": dict(level="exploration", tech="property-based history generation (Hypothesis) with a strict independent BER decoder as oracle on every emitted datagram",
+                text="Histories of API calls over 1..3 pooled-buffer sessions; each emitted datagram must strictly decode to exactly the requested call (version, credentials, USM state, PDU type, ids, OIDs in order bound to NULL).",
+                note="Strict reference decoder refber.parse_message; v3 sessions here have a known engine id."),
     "C04": dict(level="fault_enumeration", tech="property-based fault-script generation (Hypothesis) against a reference FIFO model of the socket queue; thorough tier enumerates all fault words of length <=3",
-                text="Fault scripts (loss, duplication, delay, reordering, field rewriting, truncation) over 1..4 requests are replayed against the real socket; every call outcome must equal a reference FIFO model computed from the ids seen on the wire.",
+                text="Fault scripts (loss, duplication, delay, reordering, field rewriting incl. ids equal modulo 2^31/2^32, truncation) over 1..4 requests are replayed against the real socket; every call outcome must equal a reference FIFO model computed from the ids seen on the wire.",
                 note="Assumes FIFO loopback UDP; classification uses the independent reference decoder."),
+    "C05": dict(level="exploration", tech="property-based testing (Hypothesis): generated MIBs served by an RFC 3416 model agent; oracle is an arc-tuple model of the subtree",
+                text="Generated MIBs (prefix trees with multi-octet arcs), bases, max_repetitions, agent caps, versions and drivers; list(walk) must equal the model's subtree listing and end within |MIB|+2 requests.",
+                note="The model agent implements GetNext/GetBulk/endOfMibView/v1 noSuchName from RFC 3416; values from the C02 generator."),
+    "C06": dict(level="exploration", tech="property-based hostile-agent scripts (Hypothesis) against an executable specification of the walk + invariants; step-count termination oracle; thorough tier adds bounded-exhaustive enumeration",
+                text="Reply scripts with out-of-subtree, repeated, decreasing and exception-valued varbinds followed by looping tail strategies; yields, follow-up requests and termination (by request count) must match the specification.",
+                note="Where the statement allows alternatives (stop or raise) both are accepted."),
     "C07": dict(level="exploration", tech="property-based testing (Hypothesis); oracle is the result/exception table of the property statement",
                 text="Generated replies (0..6 varbinds, value/NULL/exception mixes, duplicates, Reports, silence) through get/get_many on all versions and drivers; outcome compared with the documented table.",
                 note="Trusts the reference encoder for building replies."),
+    "C08": dict(level="exploration", tech="grammar-based property testing (Hypothesis): OID strings in must-accept / must-refuse / may classes; oracle = lenient reference reader + strict reference decoder of the emitted request + echo round-trip",
+                text="Strings are fed to get / get_many / GetIter; a sent datagram must carry exactly the denoted OID in canonical form, a refusal must send nothing; valid strings round-trip through the agent's echo.",
+                note="The 'may' class (leading zeros, '+', 2.x with x>=40) accepts refusal or correct transmission."),
+    "C09": dict(level="exploration", tech="property-based v3 histories (Hypothesis); oracle = hmac/hashlib recomputation with independently derived localized keys",
+                text="Every datagram of generated v3 histories (varying engine id / user lengths, boots/time widths, request sizes across length-form boundaries, key types) has its HMAC-96 and flags recomputed independently.",
+                note="hashlib/hmac and refusm.py key derivation (RFC 3414 A.3 vectors checked at import)."),
+    "C10": dict(level="fault_enumeration", tech="complete enumeration of the forgery class grid + property-based variation (Hypothesis); oracle = acceptance rule of the property, positive control included",
+                text="Every (digest, cipher, MAC class, flag, clear/encrypted, body, operation) combination is sent as an otherwise matching reply followed by the genuine one; forged GetResponses must be skipped, authentic ones delivered.",
+                note="Forged replies copy user, engine id, msgID and request-id from the wire; Reports may be accepted either way."),
+    "C11": dict(level="exploration", tech="property-based session histories (Hypothesis); oracle = independent pure-Python DES-CBC / AES-128-CFB decrypting every emitted message, and exact delivery of agent-encrypted replies",
+                text="Histories of sends, encrypted replies (own salts, arbitrary padding), clear Reports, time-outs and garbage on privacy sessions; each ciphertext must decrypt to exactly the expected scoped PDU plus less than one block of padding.",
+                note="refusm.py DES/AES validated on FIPS 81 / SP 800-38A / FIPS 197 vectors at import."),
+    "C12": dict(level="exploration", tech="property-based testing (Hypothesis) against hashlib implementations of RFC 3414 A.2; session keys observed through MAC validity and decryptability; malformed-material grid with outcome-class oracle",
+                text="Password lengths around 2^20 and its divisors, engine ids 0..32 octets, all key types through the raw constructor, set_keys and User/*Key; malformed keys / codes / empty passwords must raise an Exception.",
+                note="Master keys of non-standard size are legal at the Rust layer (the unit tests use them); the Python key classes pad."),
+    "C13": dict(level="exploration", tech="property-based agent personalities and session histories (Hypothesis) against a model of the session's view of (engine id, boots, time)",
+                text="Discovery / given engine id x with / refresh() / none x sync / async x all security levels: every message's USM header, MAC and ciphertext must follow the model; foreign-engine replies must be dropped.",
+                note="Localized keys are derived by the caller for the agent's engine id."),
+    "C14": dict(level="exploration", tech="property-based long send sequences (Hypothesis); invariant oracle over the history of msgPrivacyParameters + leak scan of marker OIDs after reference decryption",
+                text="Sequences of up to 2000 (quick) / 10^5 (thorough) sends with interleaved receives, time-outs, boots changes and set_keys; salts must be 8 octets, advance by one, never repeat per installation; marker arcs never appear outside msgData.",
+                note="Counter wrap-around is out of reach (random private seed)."),
+    "C15": dict(level="exploration", engine=E2, tech="property-based testing (proptest) + exhaustive enumeration of 1..3-octet INTEGERs and boundary neighbourhoods; oracle = independent minimal encoder (byte equality) and round-trip",
+                text="Every i64 of 1..2 (quick) / 1..3 (thorough) content octets and boundary neighbourhoods exhaustively, random i64, OIDs, OCTET STRINGs and v1/v2c/v3 request messages: encode == independent minimal encoder, decode(encode(x)) == x.",
+                note="Runs inside a mirror of the crate compiled from /repo/src; if the harness no longer builds the check is inconclusive (exit 2)."),
+    "C16": dict(level="exploration", engine=E2, tech="metamorphic property testing (proptest) + coverage-guided fuzzing (libFuzzer/ASan): from_ber(x||s) == (s, from_ber(x)); trailing bytes and nested length overruns must be rejected",
+                text="(x, s) pairs over all decoders and SnmpValue with suffixes biased to what an over-reading decoder would swallow; whole messages with appended bytes and inner lengths raised past their parent.",
+                note="Only real containers are attacked; OCTET STRING payloads are opaque."),
+    "C17": dict(level="exploration", tech="property-based size sweeps (Hypothesis, octet-by-octet around CAP) with dichotomy oracle + model-based testing of Buffer op sequences against a Vec model (proptest; libFuzzer/ASan)",
+                text="Requests grown to target sizes around 127/128, 255/256 and the buffer capacity on every configuration: either one strictly decodable datagram or SnmpEncodeError with nothing sent, follow-up requests unaffected; Buffer ops compared with a shadow model after every step.",
+                note="CAP read from src/buf/buffer.rs; random id widths give a few octets of slack in which either branch is accepted."),
+    "C18": dict(level="fault_enumeration", tech="generated arrival schedules (Hypothesis) executed in parallel worker processes; wall-clock oracle with slack and triple confirmation",
+                text="Schedules of non-matching datagrams and early/late replies against sync and async sessions; a timely reply must be delivered, otherwise TimeoutError within T + slack; late replies must not be delivered.",
+                note="The only wall-clock oracle: overruns must reproduce in two isolated re-runs; disagreement is logged as scheduling noise."),
     "C19": dict(level="exploration", tech="property-based testing (Hypothesis) of call-time sequences + bounded-exhaustive DFS with the real get_timeout as transition function; invariant oracle from exact rational interval",
-                text="Generated and exhaustively enumerated timestamp sequences against the real RPSPolicer; invariants delay<=I and window spans >(k-1)I checked over all pairs in O(n).",
+                text="Generated and exhaustively enumerated timestamp sequences against the real RPSPolicer; invariants delay<=I and window spans >(k-1)I checked over all pairs in O(n); sessions must consult the policer once per request.",
                 note="Assumes a monotonic clock and sequential callers as the property states."),
 }
 
@@ -55,9 +98,9 @@ m = {
         "add_only": True,
     },
     "engines": [
-        {"name": "pyagent", "path": "py/", "serves_properties": sorted(CHECKS), "kind_free_text": E1},
-        {"name": "rsprop", "path": "rs/harness, rs/bins", "serves_properties": [], "kind_free_text": "proptest runners inside a mirror crate compiled from /repo/src"},
-        {"name": "rsfuzz", "path": "rs/fuzz", "serves_properties": [], "kind_free_text": "cargo-fuzz (libFuzzer + ASan) targets over the mirror crate"},
+        {"name": "pyagent", "path": "py/", "serves_properties": sorted(k for k, v in CHECKS.items() if v.get("engine", "pyagent") == "pyagent"), "kind_free_text": E1},
+        {"name": "rsprop", "path": "rs/harness, rs/bins", "serves_properties": ["C02", "C15", "C16", "C17"], "kind_free_text": "proptest runners inside a mirror crate compiled from /repo/src"},
+        {"name": "rsfuzz", "path": "rs/fuzz", "serves_properties": ["C01", "C16", "C17"], "kind_free_text": "cargo-fuzz (libFuzzer + ASan) targets over the mirror crate"},
     ],
     "checks": checks,
     "notes": "All checks: ./check <ID> [--tier quick|thorough] [--replay FILE]; VERIF_SEED seeds every generator. Exit 0 held / 1 violation / 2 inconclusive (build or harness failure).",
